@@ -8,3 +8,11 @@ package finalizers
 // C10: the JWT put into the cache lives f.ttl; the cache entry lives f.ttl - leeway > 0.
 //@ func (*jwtFinalizer).Execute
 //@   props C10
+
+// C11: the key of a cached JWT covers signer, claims template, ttl, the whole subject and the
+// pipeline outputs (marshalled as a whole: deterministic), independent of map iteration order.
+//@ func (*jwtFinalizer).calculateCacheKey
+//@   props C11
+//@   nomaprange Write
+//@   ensures shash.n == old(shash.n) + 1 && shash.arg0[old(shash.n)] == sub
+//@   ensures hw.n == old(hw.n) + 5 && hw.arg1[old(hw.n) + 3] == shash.ret0[old(shash.n)]
